@@ -22,7 +22,7 @@
    The field orders, the wildcard label, the comparison operators, the key-tag
    loop structure and the IANA numbers come from C12/Gen.v (T1). *)
 From Coq Require Import NArith List Bool.
-From DV Require Import Base.Outcome Base.Bytes Base.Lex Base.Names C17.Model C11.Sha C12.Gen.
+From DV Require Import Base.Outcome Base.Bytes Base.Lex Base.Names C17.Model C12.Gen.
 Import ListNotations.
 Local Open Scope N_scope.
 
@@ -261,22 +261,6 @@ Definition ds_input (owner : name) (flags proto alg : N) (pk : bytes) : bytes :=
                      | _ => []
                      end) ds_input_order.
 
-Fixpoint assocN (k : N) (l : list (N * N)) : option N :=
-  match l with
-  | [] => None
-  | (a, b) :: t => if a =? k then Some b else assocN k t
-  end.
-
-(* DnskeyExt::digest; Err 1 = AlgorithmError::Unsupported *)
-Definition ds_digest (dalg : N) (owner : name) (flags proto alg : N) (pk : bytes) : outcome bytes :=
-  let inp := ds_input owner flags proto alg pk in
-  match assocN dalg ds_algorithms with
-  | Some 1 => Ok (sha1 inp)
-  | Some 2 => Ok (sha256 inp)
-  | Some 3 => Ok (sha384 inp)
-  | _ => Err 1
-  end.
-
 (* ---- executable entry points for the correspondence driver ------------------ *)
 (* names arrive as uncompressed wire format *)
 Definition name_of_wire (b : bytes) : option name :=
@@ -290,7 +274,6 @@ Definition c12_sign_rrset := sign_rrset.
 Definition c12_sign_sorted (k : skey) (l : list rr) (inc exp : N) : outcome (sigf * bytes) :=
   do rs <- rrset_new l; sign_sorted k rs inc exp.
 Definition c12_key_tag := key_tag.
-Definition c12_ds_digest := ds_digest.
 Definition c12_label_count := rrsig_label_count.
 Definition c12_wce := wildcard_closest_encloser.
 Definition c12_name_of_wire := name_of_wire.
